@@ -45,4 +45,14 @@ def attrChain : Expr → List String × Expr
   | .attr v a => let r := attrChain v; (a :: r.1, r.2)
   | e => ([], e)
 
+/-- `s.startswith(p)` (on code points, so that it reduces in the kernel) -/
+def hasPrefix (p s : String) : Bool := p.toList.isPrefixOf s.toList
+
+def splitDotAux : List Char → List Char → List (List Char)
+  | [], acc => [acc.reverse]
+  | c :: cs, acc => if c == '.' then acc.reverse :: splitDotAux cs [] else splitDotAux cs (c :: acc)
+
+/-- `s.split(".")` -/
+def splitDot (s : String) : List String := (splitDotAux s.toList []).map String.ofList
+
 end FlowRecord.Selector
